@@ -1,3 +1,6 @@
 //! One module per property: strategy, labels, tiers. The oracles live in `sdjwt_model::oracle`.
 pub mod c01;
 pub mod c05;
+pub mod c06;
+pub mod c11;
+pub mod c15;
